@@ -81,6 +81,16 @@ def unpivot(unpivot_fields, extra_keys, extra_value, regex=True, resources=None)
             if primary_key and (any(k not in config['fields_to_keep'] for k in primary_key) or
                                 len(config['unpivot_fields_without_regex']) != 1):
                 del schema['primaryKey']
+            # ... and neither is a foreign key
+            foreign_keys = [
+                fk for fk in schema.get('foreignKeys') or []
+                if all(k in config['fields_to_keep'] for k in ([fk['fields']] if isinstance(fk.get('fields'), str)
+                                                               else fk.get('fields') or []))
+            ]
+            if foreign_keys:
+                schema['foreignKeys'] = foreign_keys
+            elif 'foreignKeys' in schema:
+                del schema['foreignKeys']
             if len(config['unpivot_fields_without_regex']) != 1:
                 # ... and the cells of a kept field are repeated: it is not unique any more
                 for i, field in enumerate(fields):
